@@ -58,7 +58,19 @@ impl<'tcx> Dumper<'tcx> {
     }
 
     fn inst_key(&self, i: Instance<'tcx>) -> String {
-        with_no_trimmed_paths!(format!("{}", i))
+        let k = with_no_trimmed_paths!(format!("{}", i));
+        // A library function instantiated with a closure type prints the closure by its source position only; closures of
+        // different instances of one generic function would collide.  Disambiguate with a hash of the full instance.
+        if !i.def_id().is_local() && k.contains("{closure@") {
+            let dbg = format!("{:?}", i);
+            let mut h: u64 = 0xcbf29ce484222325;
+            for b in dbg.bytes() {
+                h ^= b as u64;
+                h = h.wrapping_mul(0x100000001b3);
+            }
+            return format!("{}#{:x}", k, h);
+        }
+        k
     }
 
     fn enqueue(&mut self, i: Instance<'tcx>, env: TypingEnv<'tcx>) {
@@ -70,6 +82,29 @@ impl<'tcx> Dumper<'tcx> {
     fn has_local_body(&self, i: Instance<'tcx>) -> bool {
         match i.def {
             InstanceKind::Item(d) => d.is_local() && self.tcx.is_mir_available(d),
+            _ => false,
+        }
+    }
+
+    /// Bodies of small library combinators (Option / Result / integer / comparison helpers) are dumped too, so that the
+    /// checker can analyse them like local code instead of needing a hand-written model for each of them.
+    fn has_ext_body(&self, i: Instance<'tcx>) -> bool {
+        match i.def {
+            InstanceKind::Item(d) => {
+                if d.is_local() || !self.tcx.is_mir_available(d) {
+                    return false;
+                }
+                if i.args.has_non_region_param() {
+                    return false;
+                }
+                let p = self.path(d);
+                const PFX: &[&str] = &[
+                    "std::option::", "core::option::", "std::result::", "core::result::", "core::num::", "std::cmp::", "core::cmp::",
+                    "core::bool::", "std::ops::function::", "core::ops::function::", "std::ops::FnOnce", "std::ops::FnMut", "std::ops::Fn",
+                    "std::convert::", "core::convert::", "core::slice::<impl [T]>::", "std::mem::", "core::mem::",
+                ];
+                PFX.iter().any(|x| p.starts_with(x))
+            }
             _ => false,
         }
     }
@@ -673,6 +708,10 @@ impl<'tcx> Dumper<'tcx> {
                             self.enqueue(inst, env);
                         } else {
                             *self.ext.entry(key.clone()).or_insert(0) += 1;
+                            if self.has_ext_body(inst) {
+                                self.enqueue(inst, env);
+                                v.push(("extbody", J::Bool(true)));
+                            }
                         }
                         // core's blanket `impl<T, U: From<T>> Into<U> for T`: name the From impl it forwards to
                         if self.path(*d).ends_with("convert::Into::into") && args.len() == 2 {
@@ -866,7 +905,8 @@ impl<'tcx> Dumper<'tcx> {
     fn process_instance(&mut self, inst: Instance<'tcx>, env: TypingEnv<'tcx>) {
         let tcx = self.tcx;
         let def = inst.def_id();
-        if !self.has_local_body(inst) {
+        let external = !self.has_local_body(inst);
+        if external && !self.has_ext_body(inst) {
             return;
         }
         let body0 = tcx.instance_mir(inst.def);
@@ -883,7 +923,7 @@ impl<'tcx> Dumper<'tcx> {
                 promos.push(pj);
             }
         }
-        let j = self.dump_body(&key, Some(inst), def, env, &body, vec![("promoted", J::Arr(promos))]);
+        let j = self.dump_body(&key, Some(inst), def, env, &body, vec![("promoted", J::Arr(promos)), ("external", J::Bool(external))]);
         self.bodies.push(j);
     }
 
